@@ -80,6 +80,12 @@ Theorem C13_stream : forall (V : list (@vrec bytes)) fv parts cur a b rev out,
 Proof. exact c13_stream. Qed.
 Print Assumptions C13_stream.
 
+(* a refused stream (the read revision is below the compaction floor): no data batch, exactly one terminator, carrying the error *)
+Theorem C13_stream_refused : forall s fv parts cur lo hi rv out, floor_check fv (eff rv cur) = FErr ->
+  stream_outcome (stream_model s fv parts cur lo hi rv) out -> out = [term_msg (eff rv cur) true].
+Proof. exact stream_refused. Qed.
+Print Assumptions C13_stream_refused.
+
 (* GetPartitions for any tiling the engine reports, in any order (the engine's list is sorted first; fix 51e6ded
    pulls interior borders back): the advertised keys are the scanner's adjusted borders *)
 Theorem C13_advertised_keys : forall parts cur a b, valid_parts parts a b ->
@@ -310,3 +316,8 @@ Example C13_retry_stream_hypothesis_needed :
   | _, _ => false
   end = true.
 Proof. vm_compute. reflexivity. Qed.
+
+Example C13_stream_refused_inhabited :
+  floor_check (Some (be64 105)) (eff 103 106) = FErr /\
+  stream_model (raw_of ex_store13) (Some (be64 105)) ex_parts 106 ex_lo ex_hi 103 = StOk [] (term_msg 103 true).
+Proof. split; vm_compute; reflexivity. Qed.
